@@ -17,6 +17,8 @@ import (
 	"io"
 	"math/rand"
 	"os"
+	"path/filepath"
+	"sort"
 	"strings"
 	"testing"
 	"time"
@@ -46,6 +48,20 @@ func vC01Spell(r *rand.Rand, s string, how int) string {
 	return s
 }
 
+// vC01TermDraw: the drawn ending of a chain (0, 1 data; 2 NODATA; 3 NXDOMAIN), or the corpus entry's
+func vC01TermDraw(drawn int, isForced bool, term string) int {
+	if !isForced {
+		return drawn
+	}
+	switch term {
+	case "TNoData":
+		return 2
+	case "TNxDomain":
+		return 3
+	}
+	return 0
+}
+
 func TestVerifC01Chase(t *testing.T) {
 	p := os.Getenv("VERIF_OUT")
 	if p == "" {
@@ -68,7 +84,28 @@ func TestVerifC01Chase(t *testing.T) {
 		}
 		return "false"
 	}
-	for i := 0; i < n; i++ {
+	// corpus first: straight chains with fixed verdicts and a fixed ending (corpus/C01/chase-*.json)
+	type forcedChase struct {
+		Ads              []bool // stored AD of each entry, in chain order
+		Term             string // TData | TNoData | TNxDomain: what the last entry holds
+		Do, Cd, Ad, Wire bool
+	}
+	var forced []forcedChase
+	if dir := os.Getenv("VERIF_CORPUS"); dir != "" {
+		files, _ := filepath.Glob(filepath.Join(dir, "chase-*.json"))
+		sort.Strings(files)
+		for _, fn := range files {
+			var fc forcedChase
+			if raw, err := os.ReadFile(fn); err == nil && json.Unmarshal(raw, &fc) == nil && len(fc.Ads) > 0 && len(fc.Ads) <= 5 {
+				forced = append(forced, fc)
+			}
+		}
+	}
+	for i := 0; i < len(forced)+n; i++ {
+		var fc *forcedChase
+		if i < len(forced) {
+			fc = &forced[i]
+		}
 		cfg := new(config.Config)
 		cfg.CacheSize = 1024
 		cfg.Expire = 600
@@ -77,6 +114,9 @@ func TestVerifC01Chase(t *testing.T) {
 		c.SetQueryer(vC01SelfQueryer{c: c})
 		e := edns.New(cfg)
 		length := 1 + r.Intn(5) // entries h0 … h(length-1)
+		if fc != nil {
+			length = len(fc.Ads)
+		}
 		// next[h]: index of the entry h's CNAME points at; -1 = terminal data
 		next := make([]int, length)
 		for h := 0; h < length; h++ {
@@ -84,7 +124,11 @@ func TestVerifC01Chase(t *testing.T) {
 		}
 		next[length-1] = -1
 		shape := "straight"
-		switch r.Intn(6) {
+		shapeDraw := r.Intn(6)
+		if fc != nil {
+			shapeDraw = 5
+		}
+		switch shapeDraw {
 		case 0: // the last entry aliases back
 			next[length-1] = r.Intn(length)
 			shape = fmt.Sprintf("loop-to-h%d", next[length-1])
@@ -94,11 +138,18 @@ func TestVerifC01Chase(t *testing.T) {
 		}
 		name := func(h int) string { return fmt.Sprintf("h%d.chase%d.c01.test.", h, i) }
 		do, cd, ad, wire := r.Intn(2) == 0, r.Intn(5) == 0, r.Intn(3) == 0, r.Intn(2) == 0
+		if fc != nil {
+			do, cd, ad, wire = fc.Do, fc.Cd, fc.Ad, fc.Wire
+		}
 		var ads []bool
 		var entries []string
 		spelled := false
+		negative := ""
 		for h := 0; h < length; h++ {
 			v := r.Intn(3) != 0
+			if fc != nil {
+				v = fc.Ads[h]
+			}
 			ads = append(ads, v)
 			q := new(dns.Msg)
 			q.SetQuestion(name(h), dns.TypeA)
@@ -107,15 +158,32 @@ func TestVerifC01Chase(t *testing.T) {
 			m.RecursionAvailable = true
 			m.AuthenticatedData = v
 			nx := "None"
+			term := "TData"
 			if next[h] >= 0 {
 				how := []int{0, 0, 1, 2}[r.Intn(4)]
 				spelled = spelled || how != 0
 				m.Answer = []dns.RR{&dns.CNAME{Hdr: dns.RR_Header{Name: name(h), Rrtype: dns.TypeCNAME, Class: dns.ClassINET, Ttl: 300}, Target: vC01Spell(r, name(next[h]), how)}}
 				nx = fmt.Sprintf("(Some %d)", next[h])
+			} else if tk := vC01TermDraw(r.Intn(4), fc != nil, func() string {
+				if fc != nil {
+					return fc.Term
+				}
+				return ""
+			}()); tk >= 2 {
+				// the chain ends in a denial: only authority records (the SOA's serial names the entry) and, for a name that
+				// does not exist, the rcode
+				m.Ns = []dns.RR{&dns.SOA{Hdr: dns.RR_Header{Name: fmt.Sprintf("chase%d.c01.test.", i), Rrtype: dns.TypeSOA, Class: dns.ClassINET, Ttl: 300},
+					Ns: "ns.c01.test.", Mbox: "h.c01.test.", Serial: uint32(h + 1), Refresh: 1, Retry: 1, Expire: 1, Minttl: 60}}
+				term = "TNoData"
+				if tk == 3 {
+					m.Rcode = dns.RcodeNameError
+					term = "TNxDomain"
+				}
+				negative = term
 			} else {
 				m.Answer = []dns.RR{&dns.A{Hdr: dns.RR_Header{Name: name(h), Rrtype: dns.TypeA, Class: dns.ClassINET, Ttl: 300}, A: []byte{192, 0, 2, byte(h + 1)}}}
 			}
-			entries = append(entries, fmt.Sprintf("(%d, mk_centry %s %s)", h, b(v), nx))
+			entries = append(entries, fmt.Sprintf("(%d, mk_centry %s %s %s)", h, b(v), nx, term))
 			for _, keyCD := range []bool{false, true} {
 				mm := m.Copy()
 				mm.CheckingDisabled = keyCD
@@ -163,13 +231,27 @@ func TestVerifC01Chase(t *testing.T) {
 				owners = append(owners, "99")
 			}
 		}
+		var auth []string
+		for _, rr := range m.Ns {
+			if soa, ok := rr.(*dns.SOA); ok && soa.Serial >= 1 {
+				auth = append(auth, fmt.Sprint(soa.Serial-1))
+			} else {
+				auth = append(auth, "99")
+			}
+		}
 		k := "chase-" + shape
+		if fc != nil {
+			k = "corpus:" + k
+		}
+		if negative != "" {
+			k += "-" + negative
+		}
 		if spelled {
 			k += "-spelled"
 		}
 		rec, _ := json.Marshal(map[string]any{"k": k + "-" + path, "nontrivial": true,
-			"coq": fmt.Sprintf("CaseChase (mk_creq %s %s %s) [%s] 0 (mk_ochase %d %s [%s] %s)", b(cd), b(do), b(ad), strings.Join(entries, ";"), m.Rcode, b(m.AuthenticatedData), strings.Join(owners, ";"), b(stub.hit)),
-			"desc": map[string]any{"entries_ad": ads, "next": next, "shape": shape, "do": do, "cd": cd, "ad": ad, "path": path, "rcode": dns.RcodeToString[m.Rcode], "client_sees_ad": m.AuthenticatedData, "owners": owners, "miss": stub.hit, "answer": fmt.Sprint(m.Answer)}})
+			"coq":  fmt.Sprintf("CaseChase (mk_creq %s %s %s) [%s] 0 (mk_ochase %d %s [%s] [%s] %s)", b(cd), b(do), b(ad), strings.Join(entries, ";"), m.Rcode, b(m.AuthenticatedData), strings.Join(owners, ";"), strings.Join(auth, ";"), b(stub.hit)),
+			"desc": map[string]any{"entries_ad": ads, "next": next, "shape": shape, "do": do, "cd": cd, "ad": ad, "path": path, "rcode": dns.RcodeToString[m.Rcode], "client_sees_ad": m.AuthenticatedData, "owners": owners, "authority_from": auth, "terminal": negative, "miss": stub.hit, "answer": fmt.Sprint(m.Answer)}})
 		f.Write(append(rec, '\n'))
 	}
 }
